@@ -155,6 +155,9 @@ class Parser(object):
             if member.bound:
                 bound, _, __ = next(six.ifilter(lambda m: m[0].name == member.bound, members[:i]), (None, None, None))
                 if bound:
+                    self._parser_check(not bound.optional and not bound.is_array,
+                                       "Sizer of '{}' has to be a plain field".format(name),
+                                       line, pos)
                     self._parser_check(self._is_type_sizer_compatible(bound.type_name),
                                        "Sizer of '{}' has to be of (unsigned) integer type".format(name),
                                        line, pos)
